@@ -24,24 +24,50 @@ type minerWorld struct {
 var mw *minerWorld
 
 //verif:replace (*go.sia.tech/coreutils/chain.Manager).TipState
-func stubTipState(cm *chain.Manager) consensus.State { return mw.cs }
+func stubTipState(cm *chain.Manager) consensus.State {
+	if mw == nil {
+		return cm.TipState()
+	}
+	return mw.cs
+}
 
 //verif:replace (*go.sia.tech/coreutils/chain.Manager).Tip
-func stubTip(cm *chain.Manager) types.ChainIndex { return mw.cs.Index }
+func stubTip(cm *chain.Manager) types.ChainIndex {
+	if mw == nil {
+		return cm.Tip()
+	}
+	return mw.cs.Index
+}
 
 //verif:replace (*go.sia.tech/coreutils/chain.Manager).PoolTransactions
-func stubPoolTransactions(cm *chain.Manager) []types.Transaction { return mw.v1 }
+func stubPoolTransactions(cm *chain.Manager) []types.Transaction {
+	if mw == nil {
+		return cm.PoolTransactions()
+	}
+	return mw.v1
+}
 
 //verif:replace (*go.sia.tech/coreutils/chain.Manager).V2PoolTransactions
-func stubV2PoolTransactions(cm *chain.Manager) []types.V2Transaction { return mw.v2 }
+func stubV2PoolTransactions(cm *chain.Manager) []types.V2Transaction {
+	if mw == nil {
+		return cm.V2PoolTransactions()
+	}
+	return mw.v2
+}
 
 //verif:replace (go.sia.tech/core/consensus.State).TransactionWeight
 func stubTxnWeight(s consensus.State, txn types.Transaction) uint64 {
+	if mw == nil {
+		return s.TransactionWeight(txn)
+	}
 	return mw.w1[txn.ArbitraryData[0][0]]
 }
 
 //verif:replace (go.sia.tech/core/consensus.State).V2TransactionWeight
 func stubV2TxnWeight(s consensus.State, txn types.V2Transaction) uint64 {
+	if mw == nil {
+		return s.V2TransactionWeight(txn)
+	}
 	if len(txn.ArbitraryData) != 1 {
 		return 0 // the miner's own uniqueness transaction
 	}
@@ -49,15 +75,28 @@ func stubV2TxnWeight(s consensus.State, txn types.V2Transaction) uint64 {
 }
 
 //verif:replace (go.sia.tech/core/consensus.State).MaxBlockWeight
-func stubMaxBlockWeight(s consensus.State) uint64 { return mw.max }
+func stubMaxBlockWeight(s consensus.State) uint64 {
+	if mw == nil {
+		return s.MaxBlockWeight()
+	}
+	return mw.max
+}
 
 //verif:replace (go.sia.tech/core/consensus.State).Commitment
 func stubCommitment(s consensus.State, addr types.Address, txns []types.Transaction, v2txns []types.V2Transaction) types.Hash256 {
+	if mw == nil {
+		return s.Commitment(addr, txns, v2txns)
+	}
 	return types.Hash256{0xc0}
 }
 
 //verif:replace go.sia.tech/coreutils.FindBlockNonce
-func stubFindBlockNonce(cs consensus.State, b *types.Block, timeout time.Duration) bool { return true }
+func stubFindBlockNonce(cs consensus.State, b *types.Block, timeout time.Duration) bool {
+	if mw == nil {
+		return FindBlockNonce(cs, b, timeout)
+	}
+	return true
+}
 
 // VerifH_C05_mineblock: the assembled block holds a prefix of the reported v1
 // list followed by a prefix of the reported v2 list (every prefix of the pool
